@@ -558,3 +558,34 @@ pub fn fam_triples(body: Body) -> Vec<Program> {
 	}
 	out
 }
+
+/// Family V: shared owned data `[Vec; 2]` listed against its address order; one thread goes through an
+/// unchecked-at-runtime constructor over `&data` (new / new_ref), the other through a checked collection of
+/// plain references to the same locks.
+pub fn fam_vecs(body: Body) -> Vec<Program> {
+	let mut out = vec![];
+	for policy in POLICIES {
+		for k0 in KINDS {
+			for k1 in KINDS {
+				for (w0, w1) in [(true, true), (true, false), (false, true)] {
+					if policy == Policy::WP && w0 && w1 {
+						continue;
+					}
+					for f in [Flavour::Guard, Flavour::ScopedLent] {
+						out.push(Program { specs: vec![Spec::Native(Native::VecsNew(k0)), Spec::Native(Native::VecsRefs(k1))], threads: vec![vec![acq(0, w0, f, body)], vec![acq(1, w1, Flavour::Guard, body)]], policy, name: "V".into(), menu: vec![] });
+					}
+				}
+			}
+		}
+		// two unchecked collections over the same data
+		for k0 in KINDS {
+			for k1 in KINDS {
+				if policy == Policy::WP {
+					continue;
+				}
+				out.push(Program { specs: vec![Spec::Native(Native::VecsNew(k0)), Spec::Native(Native::VecsNew(k1))], threads: vec![vec![acq(0, true, Flavour::Guard, body)], vec![acq(1, true, Flavour::Guard, body)]], policy, name: "V".into(), menu: vec![] });
+			}
+		}
+	}
+	out
+}
